@@ -38,6 +38,9 @@ func obsOfSearchCompiled(jp *jmespath.JMESPath, doc interface{}) (o Obs) {
 // is compared then, as in the comparison with the model (modeFor).
 func canonFor(o Obs, perm bool, text string, doc interface{}) string {
 	if perm && modeFor(text, doc) == "kind" {
+		if o.Kind == "val" || o.Kind == "evalerr" {
+			return "returns" // even value-versus-error can depend on the exposed order
+		}
 		return o.Kind
 	}
 	return canon(o, perm)
